@@ -121,12 +121,20 @@ func searchPossibleConflict(instance *datadoghqv1alpha1.ExtendedDaemonsetSetting
 	}
 	sort.Sort(edsNodes)
 
+	// an unusable selector is an error of the setting that carries it, whatever the nodes are
+	if instance != nil {
+		if _, err := metav1.LabelSelectorAsSelector(&instance.Spec.NodeSelector); err != nil {
+			return "", err
+		}
+	}
+
 	nodesAlreadySelected := map[string]string{}
 	for _, node := range nodeList.Items {
 		for _, edsNode := range edsNodes {
 			selector, err2 := metav1.LabelSelectorAsSelector(&edsNode.Spec.NodeSelector)
 			if err2 != nil {
-				return "", err2
+				// reported on that other setting when it is reconciled; it selects no node
+				continue
 			}
 			if selector.Matches(labels.Set(node.Labels)) {
 				if edsNode.Name == instance.Name {
